@@ -9,16 +9,18 @@
 //     An empty field is written as "-".  Diagnostics = what OCCA printed (first 3000 bytes) / the exception text.
 //   S(tree) is an s-expression: statements by kind with their expression trees, every expression node by kind with its
 //   operator / leaf text (identifier, literal spelling, string/char value) and its children; types with their
-//   qualifiers, pointers (and pointer qualifiers), reference flag, array extents and bit field.  Strings are written
+//   qualifiers (as a sorted set), pointers (and pointer qualifiers), reference flag, array extents and bit field.  Strings are written
 //   length-prefixed (<n>:<bytes>) so that the serialisation is unambiguous.
 //   Every request gets fresh parser objects.  Before a request is processed its id is written to the file named by
 //   $W_PRINT_CUR so that the driver can attribute a sanitizer abort to the request in progress.
+#include <algorithm>
 #include <cstdio>
 #include <cstdlib>
 #include <fstream>
 #include <iostream>
 #include <sstream>
 #include <string>
+#include <vector>
 #include <fcntl.h>
 #include <unistd.h>
 
@@ -64,16 +66,24 @@ static std::string lp(const std::string &s) {
 static void serExpr(std::ostringstream &o, const exprNode *e);
 
 static void serQualifiers(std::ostringstream &o, const qualifiers_t &q) {
-  o << "[";
+  // a qualifier list is a set (const struct S == struct S const, long unsigned == unsigned long): serialised sorted
+  std::vector<std::string> items;
   for (int i = 0; i < q.size(); ++i) {
-    if (i) o << ' ';
-    o << (q[i] ? q[i]->name : std::string("?"));
+    std::ostringstream it;
+    it << (q[i] ? q[i]->name : std::string("?"));
     const exprNodeVector &args = q.qualifiers[i].args;
     if (args.size()) {
-      o << "<";
-      for (exprNode *a : args) serExpr(o, a);
-      o << ">";
+      it << "<";
+      for (exprNode *a : args) serExpr(it, a);
+      it << ">";
     }
+    items.push_back(it.str());
+  }
+  std::sort(items.begin(), items.end());
+  o << "[";
+  for (size_t i = 0; i < items.size(); ++i) {
+    if (i) o << ' ';
+    o << items[i];
   }
   o << "]";
 }
